@@ -39,7 +39,7 @@ ASSUMPTIONS = [
     "Monotone-failure reasoning relies on leftmost matching at one position of num_re/flag_re as spelled in the module; the "
     "needed inclusion (a flag match implies a number match) is re-proved from the patterns on every run.",
 ]
-FLOORS = {"R09.1": 30, "R09.2": 10, "R09.3": 10, "R09.4": 10, "R09.5": 8, "R09.7": 8, "R09.8": 5}
+FLOORS = {"R09.1": 30, "R09.2": 10, "R09.3": 10, "R09.4": 10, "R09.5": 8, "R09.7": 8, "R09.8": 5, "R09.9": 4}
 
 BUILDERS = ["move", "line", "vertical", "horizontal", "smooth_quad", "quad", "smooth_cubic", "cubic", "arc", "closed"]
 
@@ -51,6 +51,7 @@ def run(ctx):
     ctx.rule("R09.4", "token progress")
     ctx.rule("R09.5", "inline-close acceptance and operand strides")
     ctx.rule("R09.8", "a segment kind whose measuring methods need its start is never stored with a missing start")
+    ctx.rule("R09.9", "no radius of an arc command reaches a division while it may be zero (also by underflow of its square)")
     ctx.rule("R09.6", "converter grammar vs token language")
     ctx.rule("R09.7", "inline-close resolution yields a point or ValueError")
     fn, cmd_var, branches, dup, end_returns = PL.lexer_branches(ctx, "R09.1")
@@ -60,6 +61,7 @@ def run(ctx):
     current_point(ctx)
     no_current_point(ctx)
     start_required(ctx)
+    radius_divisors(ctx)
     progress(ctx, fn)
     inline_close(ctx, branches)
     close_resolution(ctx)
@@ -248,6 +250,41 @@ def current_point(ctx):
         g = cls.getters.get(p)
         ctx.need(g is not None, "R09.3", "Path.%s not found" % p)
         ctx.ob("R09.3", "Path.%s is Maybe" % p, True, "returns None on some path: %s" % returns_maybe(g), g.lineno, sample=False)
+    # The accessors read the end points of STORED segments.  Path.closed stores Close(current_point, z_point) with both
+    # operands Maybe ("z" as the first command), so a stored end point may be None: converting it with Point(...) raises
+    # TypeError unless a None test of that very expression dominates the conversion.
+    from ..flow import dominated as _dom
+
+    closed = ctx.fn("Path.closed", "R09.3")
+    stores_maybe = False
+    for n in ast.walk(closed):
+        if isinstance(n, ast.Call) and call_name(n) == "Close":
+            srcs = {t.targets[0].id: t.value for t in ast.walk(closed) if isinstance(t, ast.Assign) and len(t.targets) == 1 and isinstance(t.targets[0], ast.Name)}
+            for a in n.args:
+                v = srcs.get(a.id) if isinstance(a, ast.Name) else a
+                if isinstance(v, ast.Attribute) and isinstance(v.value, ast.Name) and v.value.id == "self" and v.attr in MAYBE_PROPS \
+                        and returns_maybe(cls.getters[v.attr], cls):
+                    stores_maybe = True
+    nconv = 0
+    for pname, g in sorted(cls.getters.items()):
+        for n in ast.walk(g):
+            if isinstance(n, ast.Call) and call_name(n) == "Point" and len(n.args) == 1:
+                a = n.args[0]
+                chain = ast.unparse(a)
+                if not (isinstance(a, ast.Attribute) and a.attr in ("start", "end") and "_segments" in chain):
+                    continue
+                nconv += 1
+
+                def atom_test(test, positive, chain=chain):
+                    if isinstance(test, ast.Compare) and len(test.ops) == 1 and isinstance(test.comparators[0], ast.Constant) and test.comparators[0].value is None \
+                            and ast.unparse(test.left) == chain and isinstance(test.ops[0], (ast.Is, ast.IsNot)):
+                        return isinstance(test.ops[0], ast.IsNot) == positive
+                    return False
+
+                ok = not stores_maybe or _dom(n, g, atom_test)
+                ctx.ob("R09.3", "Path.%s[Point(%s)]" % (pname, chain), ok, "stored end points may be None: %s; conversion %s" % (stores_maybe, "guarded" if ok else "not guarded by a None test"), n.lineno,
+                       "`z` as the first command stores Close(None, None); converting its end point raises TypeError from the accessor, i.e. from every later command of the data (\"z l 5 5\")")
+    ctx.need(nconv >= 1, "R09.3", "accessors converting stored end points")
     req = Req(m)
     for bname in BUILDERS:
         fn = ctx.fn("Path.%s" % bname, "R09.3")
@@ -345,6 +382,188 @@ def no_current_point(ctx):
             detail = "; ".join("line %d: %s" % d for d in sm.cur_deref[:3]) or ("raises %s" % exc if exc else "current point not used as a point")
             ctx.ob("R09.3", cons, ok, detail, sm.cur_deref[0][0] if sm.cur_deref else fn.lineno,
                    "the missing current point is used as a point on this path before (or without) the ValueError guard: AttributeError/TypeError instead of ValueError", sample=False)
+
+
+# --------------------------------------------------------------------------- R09.9
+def radius_divisors(ctx):
+    """The arc builder hands the two radii of an `A` command to Arc._svg_parameterize unchecked.  Every division there whose
+    divisor is a radius or a product of radii (rx, ry, rx*rx, ...) must be reached only when that very divisor is known to be
+    non-zero: a dominating exit on `divisor == 0` - or on a product of which the divisor is a factor (a non-zero product has
+    non-zero factors; the converse does not hold in floating point: 1e-200 * 1e-200 == 0.0).  Re-scaling a non-zero radius by
+    sqrt(v) under `v > 1` keeps it non-zero.  Divisors that mix radii with the chord (t1 + t2, the norm n) are out of scope:
+    their distance from zero is a numerical argument (DESIGN section 8)."""
+    fn = ctx.fn("Arc._svg_parameterize", "R09.9")
+    params = [a.arg for a in fn.args.args]
+    ctx.need(len(params) >= 4, "R09.9", "Arc._svg_parameterize(self, start, rx, ry, ...) signature")
+    radii = set(params[2:4])
+    sites = []
+
+    def strip(e):
+        while isinstance(e, ast.Call) and isinstance(e.func, ast.Name) and e.func.id in ("abs", "float") and len(e.args) == 1:
+            e = e.args[0]
+        if isinstance(e, ast.UnaryOp) and isinstance(e.op, (ast.USub, ast.UAdd)):
+            return strip(e.operand)
+        return e
+
+    def pure(e, st):
+        e = strip(e)
+        if isinstance(e, ast.Name):
+            return e.id in st["pure"]
+        if isinstance(e, ast.BinOp) and isinstance(e.op, ast.Mult):
+            return pure(e.left, st) and pure(e.right, st)
+        if isinstance(e, ast.BinOp) and isinstance(e.op, ast.Pow) and isinstance(e.right, ast.Constant):
+            return pure(e.left, st)
+        return False
+
+    def nonzero(e, st):
+        e = strip(e)
+        if isinstance(e, ast.Name):
+            return e.id in st["nz"]
+        if isinstance(e, ast.Constant):
+            return isinstance(e.value, (int, float)) and e.value != 0
+        return ast.dump(e) in st["nzx"]  # otherwise a product of non-zero floats may underflow to zero
+
+    def learn(e, st):
+        # e is known non-zero: so is every factor of it
+        e = strip(e)
+        if isinstance(e, ast.Name):
+            if e.id not in st["nz"]:
+                st["nz"].add(e.id)
+                if e.id in st["defs"]:
+                    learn(st["defs"][e.id], st)
+        elif isinstance(e, ast.BinOp) and isinstance(e.op, ast.Mult):
+            st["nzx"].add(ast.dump(e))  # this very product, recomputed from unchanged operands, is the same number
+            learn(e.left, st)
+            learn(e.right, st)
+        elif isinstance(e, ast.BinOp) and isinstance(e.op, ast.Pow):
+            learn(e.left, st)
+
+    def facts(test, positive, st):
+        if isinstance(test, ast.BoolOp):
+            if (isinstance(test.op, ast.And) and positive) or (isinstance(test.op, ast.Or) and not positive):
+                for v in test.values:
+                    facts(v, positive, st)
+            return
+        if isinstance(test, ast.UnaryOp) and isinstance(test.op, ast.Not):
+            return facts(test.operand, not positive, st)
+        if isinstance(test, ast.Compare) and len(test.ops) == 1:
+            l, op, r = test.left, test.ops[0], test.comparators[0]
+            zero = lambda x: isinstance(x, ast.Constant) and isinstance(x.value, (int, float)) and not isinstance(x.value, bool) and x.value == 0
+            one = lambda x: isinstance(x, ast.Constant) and isinstance(x.value, (int, float)) and not isinstance(x.value, bool) and x.value >= 1
+            if zero(r) or zero(l):
+                x = l if zero(r) else r
+                if (isinstance(op, ast.Eq) and not positive) or (isinstance(op, ast.NotEq) and positive):
+                    learn(x, st)
+                if positive and ((isinstance(op, ast.Gt) and zero(r)) or (isinstance(op, ast.Lt) and zero(l))):
+                    learn(x, st)
+            if positive and isinstance(op, (ast.Gt, ast.GtE)) and one(r) and isinstance(l, ast.Name):
+                st["ge1"].add(l.id)
+            if positive and isinstance(op, (ast.Lt, ast.LtE)) and one(l) and isinstance(r, ast.Name):
+                st["ge1"].add(r.id)
+        elif isinstance(test, ast.Name) and positive:
+            learn(test, st)  # truthiness of a number
+
+    def ge1(e, st):
+        e = strip(e)
+        if isinstance(e, ast.Name):
+            return e.id in st["ge1"]
+        if isinstance(e, ast.Call) and isinstance(e.func, ast.Name) and e.func.id == "sqrt" and len(e.args) == 1:
+            return ge1(e.args[0], st)
+        if isinstance(e, ast.Constant):
+            return isinstance(e.value, (int, float)) and e.value >= 1
+        return False
+
+    def scan(node, st):
+        for n in ast.walk(node):
+            if isinstance(n, ast.BinOp) and isinstance(n.op, (ast.Div, ast.FloorDiv, ast.Mod)) and pure(n.right, st):
+                sites.append((n, nonzero(n.right, st)))
+
+    def copy_state(st):
+        return {"nz": set(st["nz"]), "nzx": set(st["nzx"]), "ge1": set(st["ge1"]), "pure": set(st["pure"]), "defs": dict(st["defs"])}
+
+    def assign(name, value, st):
+        keep = value is not None and nonzero(value, st)
+        was_pure = value is not None and pure(value, st)
+        st["nz"].discard(name)
+        st["ge1"].discard(name)
+        st["defs"].pop(name, None)
+        st["nzx"] = {d for d in st["nzx"] if ("id='%s'" % name) not in d}
+        # facts about names defined through `name` go stale
+        for k, v in list(st["defs"].items()):
+            if any(isinstance(x, ast.Name) and x.id == name for x in ast.walk(v)):
+                st["defs"].pop(k)
+        if value is not None and not any(isinstance(x, ast.Name) and x.id == name for x in ast.walk(value)):
+            st["defs"][name] = value
+        if keep:
+            st["nz"].add(name)
+        if was_pure:
+            st["pure"].add(name)
+        else:
+            st["pure"].discard(name)
+
+    def block(stmts, st):
+        """returns False when the block always leaves the function"""
+        for s in stmts:
+            if isinstance(s, ast.If):
+                scan(s.test, st)
+                a, b = copy_state(st), copy_state(st)
+                facts(s.test, True, a)
+                facts(s.test, False, b)
+                ra = block(s.body, a)
+                rb = block(s.orelse, b)
+                live = [x for x, r in ((a, ra), (b, rb)) if r]
+                if not live:
+                    return False
+                st["nz"] = set.intersection(*[x["nz"] for x in live])
+                st["nzx"] = set.intersection(*[x["nzx"] for x in live])
+                st["ge1"] = set.intersection(*[x["ge1"] for x in live])
+                st["pure"] = set.intersection(*[x["pure"] for x in live])
+                st["defs"] = {k: v for k, v in live[0]["defs"].items() if all(x["defs"].get(k) is v for x in live)}
+                continue
+            if isinstance(s, (ast.Return, ast.Raise)):
+                scan(s, st)
+                return False
+            if isinstance(s, ast.Assign) and len(s.targets) == 1 and isinstance(s.targets[0], ast.Name):
+                scan(s.value, st)
+                assign(s.targets[0].id, s.value, st)
+                continue
+            if isinstance(s, ast.AugAssign) and isinstance(s.target, ast.Name):
+                scan(s.value, st)
+                n = s.target.id
+                if isinstance(s.op, ast.Mult) and n in st["nz"] and ge1(s.value, st):
+                    keep_pure = n in st["pure"]
+                    assign(n, None, st)
+                    st["nz"].add(n)  # |x| only grows
+                    if keep_pure:
+                        st["pure"].add(n)  # still a re-scaled radius
+                elif isinstance(s.op, ast.Div) and pure(s.target, st):
+                    sites.append((ast.BinOp(left=s.target, op=s.op, right=s.value, lineno=s.lineno), False)) if pure(s.value, st) and not nonzero(s.value, st) else None
+                    assign(n, None, st)
+                else:
+                    keep_pure = n in st["pure"] and isinstance(s.op, ast.Mult)
+                    assign(n, None, st)
+                    if keep_pure:
+                        st["pure"].add(n)
+                continue
+            # anything else: look for divisions, forget what it assigns
+            scan(s, st)
+            for n in ast.walk(s):
+                if isinstance(n, ast.Name) and isinstance(n.ctx, ast.Store):
+                    assign(n.id, None, st)
+        return True
+
+    st = {"nz": set(), "nzx": set(), "ge1": set(), "pure": set(radii), "defs": {}}
+    block(fn.body, st)
+    ctx.need(sites, "R09.9", "divisions by a radius in Arc._svg_parameterize")
+    seen = {}
+    for n, ok in sites:
+        key = ast.unparse(n.right)
+        seen.setdefault(key, []).append((n, ok))
+    for key, lst in sorted(seen.items()):
+        bad = [n for n, ok in lst if not ok]
+        ctx.ob("R09.9", "Arc._svg_parameterize[divisor %s]" % key, not bad,
+               "%d division(s); unguarded at line(s) %s" % (len(lst), [n.lineno for n in bad] or "-"), (bad or [lst[0][0]])[0].lineno,
+               "a radius (or the square of one) divides while it may be zero: path data like `A 0 5 ...` or `A 1e-200 1 ...` raises ZeroDivisionError instead of yielding a segment or ValueError")
 
 
 # --------------------------------------------------------------------------- R09.8
